@@ -3,12 +3,14 @@ Model driver: `drv <property>` reads operation lines on stdin and prints the mod
 answer for each, one line per line. `reset` restores the property's initial state.
 -/
 import Uniflow.Driver.Core
+import Uniflow.Driver.C13
 import Uniflow.Driver.C17
 
 open Uniflow.Driver
 
 def handlers : List (String × Handler) :=
-  [ ("c17", C17.handler) ]
+  [ ("c13", C13.handler),
+    ("c17", C17.handler) ]
 
 partial def loop (h : Handler) (inp out : IO.FS.Stream) (st : h.σ) : IO Unit := do
   let line ← inp.getLine
